@@ -58,10 +58,20 @@ CLASSES = [
 DENOTED_CLASSES = [(name, sorted({d for _, d in pairs})) for name, pairs in CLASSES]
 
 
+RESOLVE = [None]     # optional callback: symbolic value -> Python constant (module-level constants), set by the caller
+
+
 def codec_name(value, what):
-    if not (is_const(value) and isinstance(value[1], str)):
-        raise AnalysisError('{} is not a constant string: {}'.format(what, show(value)))
-    return value[1]
+    if is_const(value) and isinstance(value[1], str):
+        return value[1]
+    if RESOLVE[0] is not None:
+        try:
+            v = RESOLVE[0](value)
+        except Exception:
+            v = None
+        if isinstance(v, str):
+            return v
+    raise AnalysisError('{} is not a constant string: {}'.format(what, show(value)))
 
 
 def make_op(kind, encoding, errors):
